@@ -16,7 +16,7 @@ from . import prog_engine as pe
 from . import rustc_engine as rc
 from .c09 import finish
 
-KINDS = ['split', 'flat', 'multi', 'nested', 'nested', 'payload', 'unsized', 'unsized2', 'targs:generic', 'targs:concrete', 'targs:lifetime', 'targs:const', 'targs:bounded',
+KINDS = ['split', 'flat', 'multi', 'nested', 'nested', 'payload', 'nested_relaxed_inner', 'unsized', 'unsized2', 'targs:generic', 'targs:concrete', 'targs:lifetime', 'targs:const', 'targs:bounded',
          'targs:unsized_arg', 'targs:default_omitted', 'targs:unsized_where', 'flat', 'multi']
 
 
